@@ -40,7 +40,8 @@ COMPONENTS = {
 }
 PROBES = ["estimate strictly inside (1, N)", "estimate == N (never crosses)", "estimate == 1", "non-constant pilot",
           "prefix crosses", "two-vote overstatement staged", "one-vote overstatement staged", "pilot shorter than N/2",
-          "interleave with zero small", "interleave with zero med", "multi-assertion contest"]
+          "interleave with zero small", "interleave with zero med", "multi-assertion contest",
+          "p-value equals the risk limit exactly"]
 
 PAIRS = [("w", "w"), ("w", "blank"), ("w", "l"), ("blank", "w"), ("blank", "blank"), ("blank", "l"), ("l", "w"),
          ("l", "blank"), ("l", "l")]
@@ -80,7 +81,7 @@ def generate(rng, tier):
                 "rate_1": rng.pick([0, 0.001, 0.05]), "rate_2": rng.pick([0, 0, 0.02]),
                 "reps": rng.pick([None, None, rng.randint(1, 6)]), "quantile": rng.pick([0.5, 0.8]), "sim_seed": rng.getrandbits(31)}
     if kind == "direct":
-        dcfg = D.gen_config(rng, mode="finite")
+        dcfg = D.gen_config(rng, mode=rng.pick(["finite", "finite", "iid"]))  # the IID tests (Kaplan-Markov/-Wald) too; N stays finite
         dcfg["random_order"] = True
         N = rng.randint(3, cfg["Nmax"])
         L = rng.randint(1, max(1, min(N - 1, rng.pick([3, 8, 30]))))
@@ -89,7 +90,15 @@ def generate(rng, tier):
         hi = rng.chance(0.7)
         x = [(rng.pick([umax, umax, (3 * umax) // 4, umax // 2, rng.randint(0, umax)]) if hi else rng.randint(0, umax)) / q
              for _ in range(L)]
-        case.update({"cfg": dcfg, "N": N, "x": x, "alpha": rng.pick([0.01, 0.05, 0.1, 0.2, 0.5]),
+        alpha = rng.pick([0.01, 0.05, 0.1, 0.2, 0.5])
+        if rng.chance(0.3) and 2 * dcfg["t"] <= dcfg["u"]:
+            # p-values that hit the risk limit exactly: data in {t, 2t}, no padding, a dyadic limit
+            x = [rng.pick([dcfg["t"], 2 * dcfg["t"], 2 * dcfg["t"]]) for _ in range(L)]
+            alpha = rng.pick([0.5, 0.25, 0.125, 0.0625, 0.03125])
+            if "g" in dcfg["kwargs"]:
+                dcfg["kwargs"]["g"] = 0
+            case["exact_hit"] = True
+        case.update({"cfg": dcfg, "N": N, "x": x, "alpha": alpha,
                      "sims": [{"reps": rng.randint(1, 12), "quantile": rng.pick([0.1, 0.5, 0.8, 0.99]), "seed": rng.getrandbits(31)}
                               for _ in range(2)]})
         return case
@@ -255,6 +264,8 @@ def execute(case):
             out.raised("test(tiled)", e)
             return out
         obs = first_crossing(h, alpha, N)
+        if any(float(v) == alpha for v in h):
+            out.probe("p-value equals the risk limit exactly")
         out.units["draws"] += N
         out.ev("direct", [int(est), obs])
         _probe_est(out, est, N)
